@@ -18,6 +18,7 @@ INSIDE `cancel` / `cancel_token` (`overflowDrain`).
 -/
 import Compio.Lemmas.KeyLifeCancel
 import Compio.Gen.WithCancel
+import Compio.Model.ExtStack
 
 namespace Compio.Props.C05
 
@@ -299,6 +300,51 @@ through an `ExtWaker` that carries the token — the shape of both bodies is che
 (target `WithCancel`, fails closed), and the runtime-level cases of the harness (`rt/*`: real `Runtime`, ops submitted
 before and after the token fires) are predicted by running `Token.register` / `Token.cancel` through `step` -/
 theorem with_cancel_carries_token : Gen.withCancelAlwaysWrapsWaker = true := rfl
+
+/-- every `Ext::with_*` builder of the source (regenerated table `Gen.extBuilders`) either sets the cancel token or
+preserves it -/
+theorem ext_builders_keep_the_token :
+    ∀ r, r ∈ Gen.extBuilders → (r.2.1.contains "cancel" || r.2.2.1.contains "cancel") = true := by decide
+
+/-- … and, more generally, preserves every field it does not set (none is dropped) -/
+theorem ext_builders_drop_nothing : ∀ r, r ∈ Gen.extBuilders → r.2.2.2 = [] := by decide
+
+/-- **a token attached by an outer `with_cancel` is visible to `Submit::poll` through any stack of inner combinators**
+(and whatever is wrapped around it further out): for every `outer` and `inner` lists of combinators. -/
+theorem outer_token_visible_through_any_stack (outer inner : List String) :
+    ExtStack.tokenVisible (outer ++ "with_cancel" :: inner) = true := by
+  have keep : ∀ (e : ExtStack.Ext) (n : String), e.contains "cancel" = true → (ExtStack.applyBuilder e n).contains "cancel" = true := by
+    intro e n he
+    unfold ExtStack.applyBuilder
+    cases hf : Gen.extBuilders.find? (fun r => r.1 == n) with
+    | none => exact he
+    | some r =>
+      have hm : r ∈ Gen.extBuilders := List.mem_of_find?_eq_some hf
+      have := ext_builders_keep_the_token r hm
+      simp only [ExtStack.applyRow, List.contains_eq_mem, List.mem_append, List.mem_filter, decide_eq_true_eq,
+        Bool.or_eq_true] at this he ⊢
+      rcases this with h | h
+      · exact Or.inl h
+      · exact Or.inr ⟨he, h⟩
+  have fold : ∀ (l : List String) (e : ExtStack.Ext), e.contains "cancel" = true →
+      (l.foldl ExtStack.applyBuilder e).contains "cancel" = true := by
+    intro l
+    induction l with
+    | nil => intro e he; exact he
+    | cons n ns ih => intro e he; exact ih _ (keep e n he)
+  unfold ExtStack.tokenVisible ExtStack.bottom
+  rw [List.foldl_append, List.foldl_cons]
+  apply fold
+  -- `with_cancel` sets the field
+  have hsets : ∀ r, r ∈ Gen.extBuilders → (r.1 == "with_cancel") = true → r.2.1.contains "cancel" = true := by decide
+  have hex : (Gen.extBuilders.find? (fun r => r.1 == "with_cancel")).isSome = true := by decide
+  unfold ExtStack.applyBuilder
+  cases hf : Gen.extBuilders.find? (fun r => r.1 == "with_cancel") with
+  | none => rw [hf] at hex; cases hex
+  | some r =>
+    have h1 := hsets r (List.mem_of_find?_eq_some hf) (List.find?_some (p := fun (r : String × List String × List String × List String) => r.1 == "with_cancel") hf)
+    simp only [ExtStack.applyRow, List.contains_eq_mem, List.mem_append, decide_eq_true_eq] at h1 ⊢
+    exact Or.inl h1
 
 /-! ### promptness on io_uring: only the kernel is assumed -/
 
